@@ -20,6 +20,9 @@ BRIDGES = {
     "mouette/operators/mass.py::area_weight_matrix_faces": ["area_weight_matrix_faces_bridge"],
     "mouette/operators/mass.py::volume_weight_matrix_cells": ["volume_weight_matrix_cells_bridge"],
     "mouette/operators/mass.py::area_weight_matrix_edges": ["area_weight_matrix_edges_at"],
+    "mouette/operators/adjacency.py::adjacency_matrix": ["pair_writes_block", "pair_writes_get", "pair_writes_range_get", "adjacencyAux_get", "adjacency_matrix_modes"],
+    "mouette/operators/adjacency.py::vertex_to_edge_operator": ["vertex_to_edge_fold", "vertex_to_edge_operator_bridge"],
+    "mouette/operators/adjacency.py::vertex_to_face_operator": ["row_writes", "toFun_row", "vertex_to_face_fold", "vertex_to_face_operator_bridge"],
 }
 LEAN_MODULES = ["Mouette.Props.C08", "Mouette.Props.C08Source"]
 REQUIRED_THEOREMS = [
@@ -371,12 +374,77 @@ def _scale_family(case):
     return out
 
 
+# =================================================================================================
+# flat family: a planar (z = 0) triangulation handed to `gradient` with the library's FlatConnectionFaces (canonical basis, Y flipped when
+# the faces are clockwise), in both orientations, after an in-plane rational rotation: the identities of the statement on that operator
+# (gradient of an affine function = its constant tangential gradient, complex and real form; Re(G* A G) = cotangent Laplacian).
+# =================================================================================================
+def _flat_mesh(fl):
+    rng = random.Random(int(fl["seed"]))
+    n = int(fl["n"])
+    c, s_ = {0: (1.0, 0.0), 1: (0.6, 0.8), 2: (-0.8, 0.6), 3: (0.28, -0.96)}[int(fl["rot"]) % 4]
+    P = []
+    for i in range(n):
+        for j in range(n):
+            inner = 0 < i < n - 1 and 0 < j < n - 1
+            x = i + (rng.randint(-12, 12) / 64 if inner else 0.0); y = j + (rng.randint(-12, 12) / 64 if inner else 0.0)
+            P.append([c * x - s_ * y + float(fl["t"][0]), s_ * x + c * y + float(fl["t"][1]), 0.0])
+    F = []
+    for i in range(n - 1):
+        for j in range(n - 1):
+            a, b, cc, d = i * n + j, (i + 1) * n + j, (i + 1) * n + j + 1, i * n + j + 1
+            F += [[a, b, cc], [a, cc, d]]
+    if fl["cw"]: F = [[f[0], f[2], f[1]] for f in F]
+    return P, F
+
+
+def _flat_family(case):
+    import mouette as M
+    O = M.operators
+    fl = case["flat"]
+    P, F = _flat_mesh(fl)
+    out = []
+    m = U.build_mesh("surf", P, F, "vec")
+    try:
+        conn = M.processing.FlatConnectionFaces(m)
+        Gc = np.asarray(O.gradient(m, conn, as_complex=True).todense())
+        Gr = np.asarray(O.gradient(m, conn, as_complex=False).todense())
+        L = np.asarray(O.laplacian(m, cotan=True).todense())
+        A = np.asarray(O.area_weight_matrix_faces(m).todense())
+        bases = [(np.array([float(x) for x in conn.base(t)[0]]), np.array([float(x) for x in conn.base(t)[1]])) for t in range(len(F))]
+    except Exception as e:  # noqa
+        return [_finding("C08/flat/raises", "gradient with a FlatConnectionFaces raises on a planar triangulation", f"{type(e).__name__}: {e}")]
+    a = np.array([float(x) for x in case["extra"]["affine"][:3]]); a[2] = 0.0
+    fv = np.array([float(np.dot(a, p)) + float(case["extra"]["affine"][3]) for p in P])
+    tol = 1e-9 * max(1.0, float(np.linalg.norm(a))) * 50
+    gc, gr = Gc @ fv, Gr @ fv
+    for t in range(len(F)):
+        X, Y = bases[t]
+        pa, pb, pc = (np.array(P[i]) for i in F[t])
+        nrm = np.cross(pb - pa, pc - pa)
+        if np.dot(np.cross(X, Y), nrm) <= 0:
+            out.append(_finding("C08/flat/basis", "the flat connection's basis is not direct w.r.t. the face normal", f"face {t}, clockwise={fl['cw']}")); break
+        vc = gc[t].real * X + gc[t].imag * Y
+        vr = gr[2 * t] * X + gr[2 * t + 1] * Y
+        if np.linalg.norm(vc - a) > tol:
+            out.append(_finding("C08/flat/grad-affine/complex", "gradient (complex, flat connection) of an affine function is not its constant gradient",
+                                f"face {t}, clockwise={fl['cw']}: {vc} vs {a}")); break
+        if np.linalg.norm(vr - a) > tol:
+            out.append(_finding("C08/flat/grad-affine/real", "gradient (real, flat connection) of an affine function is not its constant gradient",
+                                f"face {t}, clockwise={fl['cw']}: {vr} vs {a}")); break
+    D = (Gc.conj().T @ A @ Gc).real - L
+    if float(np.max(np.abs(D))) > 1e-9 * 400 * max(1.0, float(np.max(np.abs(L)))):
+        out.append(_finding("C08/flat/GAG", "Re(G* . areas . G) with the flat connection is not the cotangent Laplacian", f"max difference {float(np.max(np.abs(D)))}, clockwise={fl['cw']}"))
+    return out
+
+
 def oracle(case):
     out = []
     kind, V, X = case["t"], case["V"], case["X"]
     _set_tol(case)
     obs = _obs(case)
     if case.get("scales"): out += _scale_family(case)
+    if case.get("flat"): out += _flat_family(case)
     if obs.get("_alias"): out.append(_finding("C08/alias/vertex-coordinates-modified", "building the operators modified the vertex coordinates", ""))
     if case.get("hist"): out += _history(case)
     # ---- option `format` of the mass matrices: same matrix in every sparse format
@@ -819,6 +887,9 @@ def _decorate(rng, case):
         case["hist"] = {"move": mv}
     if case["rep"] in ("vec", "list", "tuple", "ndarray") and rng.random() < 0.3:
         case["scales"] = True
+    if case["t"] == "surf" and rng.random() < 0.2:
+        case["flat"] = {"n": rng.choice([3, 4]), "cw": rng.random() < 0.5, "seed": rng.randrange(1 << 20), "rot": rng.randrange(4),
+                        "t": [rng.randint(-16, 16) / 8, rng.randint(-16, 16) / 8]}
     return case
 
 
@@ -863,6 +934,7 @@ def classify(case, obs):
     ks.append("rep:" + case.get("rep", "vec"))
     if case.get("hist"): ks += ["hist:second-build", "hist:move-" + case["hist"]["move"]["kind"]]
     if case.get("scales"): ks.append("scales:1e-7..1e6")
+    if case.get("flat"): ks.append("flat:" + ("cw" if case["flat"]["cw"] else "ccw"))
     return ks
 
 
@@ -1010,9 +1082,6 @@ SOURCE_MAP.update({
     _LAP + "laplacian_triangles": "modelled", _LAP + "laplacian_edges": "modelled",
     _LAP + "volume_laplacian": "modelled", _LAP + "laplacian_tetrahedra": "modelled",
     "mouette/operators/gradient_op.py::gradient": "modelled",
-    "mouette/operators/adjacency.py::adjacency_matrix": "modelled",
-    "mouette/operators/adjacency.py::vertex_to_edge_operator": "modelled",
-    "mouette/operators/adjacency.py::vertex_to_face_operator": "modelled",
     _CONN + "SurfaceConnection.__init__": "oracle-only", _CONN + "SurfaceConnection._initialize": _OOS + "abstract method (body is `pass`)",
     _CONN + "SurfaceConnection.transport": "oracle-only", _CONN + "SurfaceConnection.base": "oracle-only",
     _CONN + "SurfaceConnection.bX": "oracle-only", _CONN + "SurfaceConnection.bY": "oracle-only",
@@ -1024,9 +1093,9 @@ SOURCE_MAP.update({
     _CONN + "FlatConnectionVertices.__init__": _OOS + "flat (2-D) connections are not used by the operators of the statement",
     _CONN + "FlatConnectionVertices._initialize": _OOS + "as above", _CONN + "FlatConnectionVertices.transport": _OOS + "as above",
     _CONN + "FlatConnectionVertices.base": _OOS + "as above", _CONN + "FlatConnectionVertices.project": _OOS + "as above",
-    _CONN + "FlatConnectionFaces.__init__": _OOS + "as above", _CONN + "FlatConnectionFaces._initialize": _OOS + "as above",
-    _CONN + "FlatConnectionFaces.transport": _OOS + "as above", _CONN + "FlatConnectionFaces.base": _OOS + "as above",
-    _CONN + "FlatConnectionFaces.project": _OOS + "as above",
+    _CONN + "FlatConnectionFaces.__init__": "oracle-only", _CONN + "FlatConnectionFaces._initialize": _OOS + "as above",
+    _CONN + "FlatConnectionFaces.transport": _OOS + "as above", _CONN + "FlatConnectionFaces.base": "oracle-only",
+    _CONN + "FlatConnectionFaces.project": "oracle-only",
     _CONN + "SurfaceConnectionEdges.__init__": _OOS + "edge connections are used by laplacian_edges with a connection, which the statement does not list",
     _CONN + "SurfaceConnectionEdges._initialize": _OOS + "as above",
 })
